@@ -46,7 +46,9 @@ class PEntailment(Inference):
 
         # falsified query: (not B|A)
         falsified_query = Conditional(Not(query.consequence), query.antecedence, None)
-        conditionals[0] = falsified_query
+        # store the negated query under a key no conditional of the base uses
+        # (the base may itself be keyed from 0)
+        conditionals[max(conditionals, default=0) + 1] = falsified_query
         extended_bb = BeliefBase(
             belief_base.signature, conditionals, f"{belief_base.name}_queried"
         )
